@@ -35,6 +35,24 @@ pub struct Case {
     pub vhost: Option<String>,
     pub extra_segments: Vec<String>,
     pub params: Vec<Param>,
+    /// write RFC 3986 sub-delims (! $ & ' ( ) * + , ; =) of user, password and path segments
+    /// literally instead of percent-encoding them: both spellings are the same URL component
+    /// (in particular a literal '+' is a plus sign; only form-encoded query strings read it
+    /// as a space)
+    #[serde(default)]
+    pub literal_sub_delims: bool,
+}
+
+fn enc_component(s: &str, literal_sub_delims: bool) -> String {
+    let mut out = String::new();
+    for ch in s.chars() {
+        if literal_sub_delims && ch.is_ascii() && b"!$&'()*+,;=".contains(&(ch as u8)) {
+            out.push(ch);
+        } else {
+            out.push_str(&enc(&ch.to_string()));
+        }
+    }
+    out
 }
 
 fn enc(s: &str) -> String {
@@ -55,11 +73,11 @@ pub fn assemble(c: &Case) -> String {
     let has_userinfo = c.user.is_some() || c.pass.is_some();
     if has_userinfo {
         if let Some(us) = &c.user {
-            u.push_str(&enc(us));
+            u.push_str(&enc_component(us, c.literal_sub_delims));
         }
         if let Some(p) = &c.pass {
             u.push(':');
-            u.push_str(&enc(p));
+            u.push_str(&enc_component(p, c.literal_sub_delims));
         }
         u.push('@');
     }
@@ -71,10 +89,10 @@ pub fn assemble(c: &Case) -> String {
     }
     if let Some(v) = &c.vhost {
         u.push('/');
-        u.push_str(&enc(v));
+        u.push_str(&enc_component(v, c.literal_sub_delims));
         for s in &c.extra_segments {
             u.push('/');
-            u.push_str(&enc(s));
+            u.push_str(&enc_component(s, c.literal_sub_delims));
         }
     }
     if !c.params.is_empty() {
@@ -374,13 +392,14 @@ fn strat(_t: Tier) -> BoxedStrategy<Case> {
         1 => Just(Some("[::1]".to_string())),
     ];
     // strings that look like percent escapes themselves must survive exactly one decoding
-    let comp = || prop_oneof![2 => Just(None), 3 => gen::short_string_nonempty().prop_map(Some), 1 => "[@:/%? #]{1,6}".prop_map(Some), 1 => "[%0-9A-Fa-f]{1,8}".prop_map(Some)];
+    let comp = || prop_oneof![2 => Just(None), 3 => gen::short_string_nonempty().prop_map(Some), 1 => "[@:/%? #]{1,6}".prop_map(Some), 1 => "[%0-9A-Fa-f]{1,8}".prop_map(Some), 2 => "[a-z!$&'()*+,;=]{1,10}".prop_map(Some)];
     let vhost = prop_oneof![
         1 => "[%0-9A-Fa-f/]{1,8}".prop_map(Some),
         2 => Just(None),
         2 => Just(Some(String::new())),
         4 => gen::short_string_nonempty().prop_map(Some),
         1 => "[a-z/%]{1,8}".prop_map(Some),
+        2 => "[a-z!$&'()*+,;=]{1,10}".prop_map(Some),
     ];
     let param = prop_oneof![
         3 => numeric(65535).prop_map(Param::Heartbeat),
@@ -398,8 +417,9 @@ fn strat(_t: Tier) -> BoxedStrategy<Case> {
         vhost,
         prop_oneof![6 => Just(Vec::new()), 1 => vec("[a-z]{1,5}", 1..3)],
         prop_oneof![2 => Just(Vec::new()), 5 => vec(param, 1..5)],
+        prop::bool::weighted(0.4),
     )
-        .prop_map(|(scheme, host, port, user, pass, vhost, extra_segments, params)| {
+        .prop_map(|(scheme, host, port, user, pass, vhost, extra_segments, params, literal_sub_delims)| {
             let mut c = Case {
                 scheme,
                 host,
@@ -409,6 +429,7 @@ fn strat(_t: Tier) -> BoxedStrategy<Case> {
                 vhost,
                 extra_segments,
                 params,
+                literal_sub_delims,
             };
             // special schemes require a host
             if c.scheme == "http" && c.host.is_none() {
@@ -439,6 +460,9 @@ pub struct NetCase {
     /// cannot be bound): the parameters must reach whichever address finally answers
     #[serde(default)]
     pub multi_addr: bool,
+    /// sub-delims of the credentials and the vhost are written literally in the URL
+    #[serde(default)]
+    pub sub_delims_literal: bool,
 }
 
 const MULTI_NAME: &str = "avh-multi.test";
@@ -641,6 +665,7 @@ pub fn exec_net(c: &NetCase) -> Outcome {
         vhost: c.vhost.clone(),
         extra_segments: vec![],
         params,
+        literal_sub_delims: c.sub_delims_literal,
     });
     let url = assemble(&uc);
     let want = match expect(&uc) {
@@ -704,19 +729,20 @@ pub fn exec_net(c: &NetCase) -> Outcome {
 }
 
 fn strat_net(_t: Tier) -> BoxedStrategy<NetCase> {
-    let comp = || prop_oneof![2 => Just(None), 3 => gen::short_string_nonempty().prop_map(Some), 1 => "[@:/%? #]{1,6}".prop_map(Some), 1 => "[%0-9A-Fa-f]{1,8}".prop_map(Some)];
+    let comp = || prop_oneof![2 => Just(None), 3 => gen::short_string_nonempty().prop_map(Some), 1 => "[@:/%? #]{1,6}".prop_map(Some), 1 => "[%0-9A-Fa-f]{1,8}".prop_map(Some), 2 => "[a-z!$&'()*+,;=]{1,10}".prop_map(Some)];
     (
         comp(),
         comp(),
-        prop_oneof![1 => Just(None), 1 => Just(Some(String::new())), 3 => gen::short_string_nonempty().prop_map(Some), 1 => "[%0-9A-Fa-f/]{1,8}".prop_map(Some)],
+        prop_oneof![1 => Just(None), 1 => Just(Some(String::new())), 3 => gen::short_string_nonempty().prop_map(Some), 1 => "[%0-9A-Fa-f/]{1,8}".prop_map(Some), 1 => "[a-z!$&'()*+,;=]{1,10}".prop_map(Some)],
         // announced heartbeat must not fire inside the case: 0 or >= 30 s
         prop_oneof![1 => Just(None), 1 => Just(Some(0u16)), 2 => (30u16..65535).prop_map(Some)],
         prop_oneof![1 => Just(None), 2 => any::<u16>().prop_map(Some)],
         prop::bool::weighted(0.2),
         prop::bool::weighted(0.3),
         prop::bool::weighted(0.25),
+        prop::bool::weighted(0.4),
     )
-        .prop_map(|(user, pass, vhost, heartbeat, channel_max, external, ipv6, multi_addr)| NetCase {
+        .prop_map(|(user, pass, vhost, heartbeat, channel_max, external, ipv6, multi_addr, sub_delims_literal)| NetCase {
             user,
             pass,
             vhost,
@@ -725,6 +751,7 @@ fn strat_net(_t: Tier) -> BoxedStrategy<NetCase> {
             external,
             ipv6,
             multi_addr,
+            sub_delims_literal,
         })
         .boxed()
 }
@@ -801,7 +828,7 @@ pub fn parts() -> Vec<Box<dyn PartDyn>> {
     vec![
         Box::new(Part::<Case> {
             name: "decode",
-            rule: "URLs assembled from components (scheme amqp/amqps/AMQP/http/amqpx; host absent/localhost/127.0.0.1/example.com/[::1]; port absent or 1-65535; user/password absent or arbitrary Unicode percent-encoded by the harness; vhost none, '/', arbitrary encoded; extra path segments; 0-4 query parameters in any order incl. repeated, boundary, empty, negative and non-numeric values, auth_mechanism external/other, unknown keys), decoded through the decode_url hook; oracle: the components the URL was assembled from (defaults per the property), or the set of specific errors the URL's defects allow; plus Connection::open => InsecureUrl for every decodable amqp:// URL; non-trivial = percent-encoded or defaulted component or error case; distinct by case hash",
+            rule: "URLs assembled from components (scheme amqp/amqps/AMQP/http/amqpx; host absent/localhost/127.0.0.1/example.com/[::1]; port absent or 1-65535; user/password absent or arbitrary Unicode percent-encoded by the harness, RFC 3986 sub-delims (! $ & ' ( ) * + , ; =) written literally in 40 % of the URLs; vhost none, '/', arbitrary encoded; extra path segments; 0-4 query parameters in any order incl. repeated, boundary, empty, negative and non-numeric values, auth_mechanism external/other, unknown keys), decoded through the decode_url hook; oracle: the components the URL was assembled from (defaults per the property), or the set of specific errors the URL's defects allow; plus Connection::open => InsecureUrl for every decodable amqp:// URL; non-trivial = percent-encoded or defaulted component or error case; distinct by case hash",
             cases: |t| t.pick(300_000, 5_000_000),
             threads: 16,
             strategy: strat,
